@@ -616,6 +616,7 @@ func mergeFields(segments []*SegmentBase) (bool, []string) {
 }
 
 func isClosed(closeCh chan struct{}) bool {
+	verifPoll(closeCh)
 	select {
 	case <-closeCh:
 		return true
